@@ -128,6 +128,7 @@ def findBucketByID (s : St) (id : Nat) : Option Bucket := s.buckets.find? (·.ID
 /-! ### `Service.FindByID` -/
 
 def findByID (s : St) (org id : Nat) : Except Err Mapping :=
+  if id == 0 then .error .invalid else   -- `id.Encode()` fails: ErrInvalidDBRPID
   let virt : Except Err Mapping :=
     match findBucketByID s id with
     | some b => .ok (bucketToMapping b)
@@ -188,18 +189,19 @@ def update (s : St) (m : Mapping) : St × Except Err Mapping :=
 
 /-! ### `Service.Delete` -/
 
-def delete (s : St) (org id : Nat) : St :=
+def delete (s : St) (org id : Nat) : St × Except Err Unit :=
   match findByID s org id with
-  | .error _ => s
+  | .error _ => (s, .ok ())
   | .ok m =>
-    let s := delRec s id
+    if org == 0 then (s, .error .internal) else   -- `orgID.Encode()` fails before the transaction
+    (let s := delRec s id
     let s := idxDelete s m.OrganizationID m.Database id
     let s := byOrgDelete s org id
     if m.Default then
       match getFirstBut s m.OrganizationID m.Database id with
       | some f => setDefault s m.OrganizationID m.Database f
       | none => unsetDefault s m.OrganizationID m.Database
-    else s
+    else s, .ok ())
 
 /-! ### `Service.FindMany` -/
 
@@ -256,14 +258,16 @@ def findPhysical (s : St) (f : Filter) : Except Err (List Mapping) :=
 def findBuckets (s : St) (f : Filter) : List Bucket :=
   s.buckets.filter fun b => (f.BucketID.isNone || f.BucketID == some b.ID) && (f.OrgID.isNone || f.OrgID == some b.OrgID)
 
-/-- the inner loop over `ms` for one virtual mapping: `none` = `continue OUTER` -/
+/-- the inner loop over `ms` for one virtual mapping: `none` = `continue OUTER`.
+    With `fixes/C43-findmany-virtual-dedup.patch` the loop no longer `break`s after clearing
+    `Default` (before the patch a second bucket naming the same database and retention policy
+    was listed again whenever an earlier entry of that database was a default). -/
 def mergeOne (nm : Mapping) : List Mapping → Option Mapping
   | [] => some nm
   | m :: ms =>
     if m.Database == nm.Database then
       if nm.Virtual && m.RetentionPolicy == nm.RetentionPolicy then none
-      else if m.Default && nm.Default then some { nm with Default := false }
-      else mergeOne nm ms
+      else mergeOne (if m.Default && nm.Default then { nm with Default := false } else nm) ms
     else mergeOne nm ms
 
 /-- second half of `FindMany`: virtual mappings from bucket names -/
@@ -288,7 +292,7 @@ def deleteBucket (s : St) (id : Nat) : St × Except Err Unit :=
     let s := { s with buckets := s.buckets.filter (·.ID != id) }
     match findMany s { OrgID := some b.OrgID, BucketID := some b.ID } with
     | .error _ => (s, .ok ())
-    | .ok ms => (ms.foldl (fun s m => delete s b.OrgID m.ID) s, .ok ())
+    | .ok ms => (ms.foldl (fun s m => (delete s b.OrgID m.ID).1) s, .ok ())
 
 /-! ### the harness operations as a state machine -/
 
@@ -336,7 +340,10 @@ def step (s : St) : Op → St × Obs
       match update s m with
       | (s', .ok m') => (s', .mapping m')
       | (s', .error e) => (s', .err e)
-  | .delete org id => (delete s org id, .ok)
+  | .delete org id =>
+    match delete s org id with
+    | (s', .ok _) => (s', .ok)
+    | (s', .error e) => (s', .err e)
   | .get org id =>
     match findByID s org id with
     | .ok m => (s, .mapping m)
